@@ -42,7 +42,7 @@ def run(ctx):
     gen, hists = gen_histories(ctx, [4], 5)
     rnd = random.Random(ctx.seed)
     rnd.shuffle(hists)
-    want = 1600 if quick else 24000
+    want = 1600 if quick else len(hists)
     chosen = hists[:want]
     drv = ctx.build("c15")
     shards = 8 if quick else 16
@@ -104,7 +104,7 @@ def run(ctx):
         "explanation": "SignRound.tla (reference handler: add iff member, not duplicate, share valid for this block's hash, beacon share "
                        "valid) model-checked exhaustively for 4 members, threshold 3, <= 2 Byzantine/outsider messages, all orders; the "
                        "as-coded alternative is explored for candidate scenarios only. TLC generates every message sequence of length 5; "
-                       "a seeded sample (thorough: 24000 of them) is fed to the real round1.Update of a round built for a group from "
+                       "a seeded sample (thorough: all of them) is fed to the real round1.Update of a round built for a group from "
                        "the node's DKG, half of the sequences through the protobuf wire codec; after every message the share sets, the "
                        "validity of every stored share, the recovery flags and round2.checkSignature are logged and judged by SignRoundTrace.",
     }
